@@ -139,9 +139,11 @@ fn nontrivial(prop: &str, out: &crate::exec::RunOut, an: &Analysis) -> bool {
         "C01" => p("rotation"),
         "C02" | "C06" => p("restart") && (prop == "C02" || p("rejected_op")),
         "C03" | "C05" => an.crash.images > 0 && p("rotation"),
+        "C09" | "C10" => an.crash.images > 0,
         "C07" => p("rotation") && out.ep.reads > 0,
         "C15" => p("rotation"),
         "C16" => true,
+        "C13" => p("runs_with_both_ok_and_refused"),
         _ => p("rotation"),
     }
 }
@@ -494,6 +496,8 @@ fn rule_of(prop: &str) -> String {
         "C06" => "at least one restart and at least one specification-rejected write were executed",
         "C03" | "C05" => "at least one rotation happened and at least one crash image was opened",
         "C07" => "at least one rotation and at least one disk read happened",
+        "C13" => "at least one open succeeded and at least one was refused in the same run",
+        "C09" | "C10" => "at least one mutated image of the run was opened (evaluations counts runs + mutated images; distinct also counts distinct mutated image contents)",
         _ => "at least one chunk rotation happened and the run was not aborted",
     };
     format!(
